@@ -13,6 +13,7 @@ AnalysisIncomplete: the checks then exit 2 instead of guessing.
 
 import ast
 
+from .astutil import attr_chain
 from .model import (
     AnalysisIncomplete,
     ClassInfo,
@@ -256,6 +257,11 @@ class Domain:
         pass
 
     def on_attr_store(self, interp, obj, attr, value, node):
+        pass
+
+    def on_container_mutation(self, interp, chain, how, node):
+        """a store / mutating method on a plain container kept in an attribute (`self.x[k] = v`,
+        `self.x.append(v)`, `.update`, `.clear` ...)"""
         pass
 
     def on_state_read(self, interp, cls, path, attr, node):
@@ -684,8 +690,13 @@ class Interp:
                 newv = LST(None, join(self.dom, list_elem(self.dom, base), v))
                 if isinstance(t.value, ast.Name):
                     env.set(t.value.id, newv)
+                ch = attr_chain(t.value) if isinstance(t.value, ast.Attribute) else None
+                if ch and ch.startswith("self."):
+                    self.dom.on_container_mutation(self, ch, "item store", st)
             elif base.kind == "dict":
-                pass
+                ch = attr_chain(t.value) if isinstance(t.value, ast.Attribute) else None
+                if ch and ch.startswith("self."):
+                    self.dom.on_container_mutation(self, ch, "item store", st)
             else:
                 self.dom.on_write(self, "subscript", base, v, st)
         elif isinstance(t, ast.Starred):
@@ -1124,6 +1135,10 @@ class Interp:
                     r = self.dom_plain_expr(one, cls, path, ai, v, node)
             elif isinstance(v, ast.Lambda):
                 r = FUNC(FuncInfo(v, a.cls.module))
+            elif isinstance(v, ast.Dict) or (isinstance(v, ast.Call) and isinstance(v.func, ast.Name) and v.func.id in ("dict", "OrderedDict", "defaultdict")):
+                r = DCT(None)  # a container kept on the module (a memo, a registry)
+            elif (isinstance(v, (ast.List, ast.Set)) and not v.elts) or (isinstance(v, ast.Call) and isinstance(v.func, ast.Name) and v.func.id in ("list", "set") and not v.args):
+                r = LST(None, None)
             else:
                 r = self.dom_plain_expr(one, cls, path, ai, v, node)
             res = join(self.dom, res, r)
@@ -1798,6 +1813,10 @@ class Interp:
                     return recv
                 return NONE
             return TOP()
+        if k in ("dict", "list") and name in ("update", "setdefault", "pop", "popitem", "clear", "append", "extend", "insert", "remove", "sort", "reverse", "__setitem__", "__delitem__") and isinstance(node, ast.Call) and isinstance(node.func, ast.Attribute):
+            ch = attr_chain(node.func.value) if isinstance(node.func.value, ast.Attribute) else None
+            if ch and ch.startswith("self."):
+                dom.on_container_mutation(self, ch, "." + name + "()", node)
         if k == "dict":
             if name in ("keys", "values", "items"):
                 return LST(None, TOP())
